@@ -3,6 +3,7 @@ from ..core import Rule
 from ..prog import *
 from ..facts import AnalysisBroken
 from ..interp import normx, nkey, run_all
+from .. import pton as PT
 
 UNITS = ["evutil"]
 LEVEL = "other"
@@ -97,6 +98,7 @@ def run(ctx, config):
                 r2.bad("K4:evutil_inet_pton:byte-not-range-checked", el.where(), g.name, "%s packed without a dominating > 255 rejection" % sorted(vs - checked))
     rules.append(r2)
     rules.append(rule_v4form(P))
+    rules.append(PT.rule_pton(P, "C40-pton-strict"))
     return rules
 
 
